@@ -22,7 +22,9 @@ CONSTANTS K,                 \* items sent by A
           WithError,         \* BOOLEAN: A closes with an error
           WithCallback,      \* BOOLEAN: a thread on B calls setcallback(endmarker) at some moment
           WithLocalClose,    \* BOOLEAN: a thread on B calls close() on its end at some moment
-          Fix_CloseFlagFirst
+          Fix_CloseFlagFirst,
+          EndCallbackRaises, \* BOOLEAN: the callback B registers raises when it is handed the endmarker
+          Fix_GuardEndmarkerCallback   \* FALSE: that exception escapes through the message handler and ends B's receiver thread
 
 END == 0   \* the ENDMARKER in the item queue (items are 1..K)
 
@@ -117,7 +119,9 @@ DLcNlo ==     \* _no_longer_opened: forget channel and callback, fire endmarker
   /\ dpc \in {"lc_nlo", "nlo"}
   /\ registered' = FALSE /\ callback' = "none"
   /\ endCalls' = IF callback = "set" THEN endCalls + 1 ELSE endCalls
-  /\ IF dpc = "nlo" THEN dpc' = "idle" /\ rlock' = "none"
+  /\ IF callback = "set" /\ EndCallbackRaises /\ ~Fix_GuardEndmarkerCallback
+     THEN dpc' = "dead" /\ rlock' = "none"      \* the "with _receivelock" block is left by the exception, the thread ends
+     ELSE IF dpc = "nlo" THEN dpc' = "idle" /\ rlock' = "none"
      ELSE dpc' = (IF Fix_CloseFlagFirst THEN "lc_set" ELSE "lc_flag") /\ UNCHANGED rlock
   /\ UA /\ UNCHANGED <<back, items, taken, closed, rclosed, errs, dframe, gotLog, cbLog, eofBy, errBy, probe>> /\ UUsers
 DLcSet ==     \* channel._receiveclosed.set(); leave the receive lock
@@ -239,6 +243,9 @@ ObserverSeesClosed == \A p \in probe : p[2] = TRUE
 ErrorOnce == Cardinality(errBy) <= 1
 \* C10: at most one endmarker, and none before the callback got all queued items of a closed channel
 EndmarkerOnce == endCalls <= 1
+
+\* C07: whatever a callback does with its endmarker, the receiver thread (and with it every other channel of the gateway) lives on
+ReceiverThreadSurvives == dpc # "dead"
 
 \* liveness
 ReceiversFinish == \A r \in Receivers : <>(rpc[r] = "done")
